@@ -121,6 +121,8 @@ def c03(tier):
                         continue
                     nm = n + 1 if op == 7 else n
                     kw = {"optional_reach": EMPTY_AFTER} if op in (6, 9) else {}
+                    if n < 3 and op == 5:
+                        kw = {"optional_reach": ["descending"]}   # after a vertex removal on 2 vertices no pair (i>j) can still be an edge
                     obs.append(step("C03", src, tag, n, nm, lt, op, 0, **kw))
                 for rm in (0, 1, 2, 3):
                     if tier == "quick" and lt not in (1, 4):
